@@ -52,6 +52,9 @@ TPair == /\ E.ev = "pre_pair"
 Next == l <= Len(Rec) /\ (TNew \/ TConst \/ TPair) /\ l' = l + 1
 Spec == Init /\ [][Next]_vars
 
+\* reaching the end of the trace ends the search at once (reported by TLC as a violation of NotDone = accepted);
+\* otherwise the postcondition reports the longest matched prefix
+NotDone == l <= Len(Rec)
 Matched == TLCGet("stats").diameter - 1
 TraceAccepted ==
     \/ Matched = Len(Rec)
